@@ -24,16 +24,16 @@ type Viol struct {
 
 // Obs is what the monitors observed on one case.
 type Obs struct {
-	Idx          int            `json:"idx"`
-	Class        string         `json:"class"`            // stratum of the case (shape/decoration/op…)
-	FP           string         `json:"fp"`               // fingerprint of the literal case (distinctness)
-	Nontrivial   bool           `json:"nontrivial"`       // satisfies the property's non-triviality rule
-	Asserts      int            `json:"asserts"`          // oracle assertions evaluated
-	Events       map[string]int `json:"events,omitempty"` // measured counters (ops, outcomes, hook events…)
-	Viols        []Viol         `json:"viols,omitempty"`
-	Inconclusive string         `json:"inconclusive,omitempty"`
-	Sample       string         `json:"sample,omitempty"` // literal rendering of the case (truncated)
-	Sets         map[string][]string `json:"sets,omitempty"` // values whose distinct union is reported (e.g. interleaving hashes)
+	Idx          int                 `json:"idx"`
+	Class        string              `json:"class"`            // stratum of the case (shape/decoration/op…)
+	FP           string              `json:"fp"`               // fingerprint of the literal case (distinctness)
+	Nontrivial   bool                `json:"nontrivial"`       // satisfies the property's non-triviality rule
+	Asserts      int                 `json:"asserts"`          // oracle assertions evaluated
+	Events       map[string]int      `json:"events,omitempty"` // measured counters (ops, outcomes, hook events…)
+	Viols        []Viol              `json:"viols,omitempty"`
+	Inconclusive string              `json:"inconclusive,omitempty"`
+	Sample       string              `json:"sample,omitempty"` // literal rendering of the case (truncated)
+	Sets         map[string][]string `json:"sets,omitempty"`   // values whose distinct union is reported (e.g. interleaving hashes)
 }
 
 func (o *Obs) Ev(k string, n int) {
